@@ -324,9 +324,12 @@ func (t *ByronTransaction) UnmarshalCBOR(cborData []byte) error {
 		return err
 	}
 
-	if len(txArray) < 2 {
+	// A tx_payload entry is exactly [tx, witnesses]. Anything after the second
+	// element is covered by none of the body proof's hashes, so accepting it
+	// would let the block bytes change without changing the block hash
+	if len(txArray) != 2 {
 		return fmt.Errorf(
-			"invalid byron transaction: expected at least 2 components, got %d",
+			"invalid byron transaction: expected 2 components, got %d",
 			len(txArray),
 		)
 	}
